@@ -240,13 +240,16 @@ class V:
         return self.ctx.fresh_bytes(name)
 
     def choose(self, n: int, label: str = 'ch') -> int:
+        fx = self.hdef.opts.get('fix')
+        if fx and label in fx:
+            return fx[label]
         return self.ctx.choose(n, label)
 
     def one_of(self, label: str, *vals: Any) -> Any:
-        return vals[self.ctx.choose(len(vals), label)]
+        return vals[self.choose(len(vals), label)]
 
     def optional(self, label: str, mk: Callable[[], Any]) -> Any:
-        return None if self.ctx.choose(2, label + '?') == 0 else mk()
+        return None if self.choose(2, label + '?') == 0 else mk()
 
     def assume(self, c: Any) -> None:
         self.ctx.assume(c)
@@ -300,6 +303,10 @@ class V:
                 r = fn(*args, **kwargs)
                 if hasattr(r, '__await__'):
                     r = _run_coro(r)
+                elif hasattr(r, '__aiter__') and hasattr(r, '__anext__'):
+                    r = _run_coro(_drain_async(r))
+                elif hasattr(r, '__next__') and hasattr(r, 'send'):
+                    r = Yielded(list(r))
                 return Outcome(value=r)
             except PathCut:
                 raise
@@ -345,6 +352,37 @@ class V:
 
     def raised(self, out: Outcome, cls: Any) -> Any:
         return out.exc is not None and out.exc.isa(cls)
+
+
+class Yielded:
+    """Everything a generator of the real code yielded (concrete replay)."""
+
+    def __init__(self, items: List[Any]) -> None:
+        self.items = items
+        self.retval = None
+
+
+async def _drain_async(agen: Any) -> Any:
+    out = []
+    async for x in agen:
+        out.append(x)
+    return Yielded(out)
+
+
+class Ready:
+    """An already-completed awaitable (stubs of async server callables return these)."""
+
+    __pyvc_symbolic__ = True
+
+    def __init__(self, value: Any) -> None:
+        self.value = value
+
+    def __await__(self) -> Any:
+        return self.value
+        yield  # pragma: no cover
+
+    def __pyvc_await__(self, interp: Any) -> Any:
+        return self.value
 
 
 def _run_coro(coro: Any) -> Any:
